@@ -105,3 +105,44 @@ package helpers
 //@   ensures sets-the-bit: bitOf(bs, bit)
 //@   ensures other-bits-kept: forall b uint :: b != bit && b/8 < uint(len(bs.entries)) ==> bitOf(bs, b) == old(bitOf(bs, b))
 //@   ensures other-sets-kept: forall o BitSet, b uint :: !sameArray(o.entries, bs.entries) && b/8 < uint(len(o.entries)) ==> bitOf(o, b) == old(bitOf(o, b))
+
+// ----------------------------------------------------------------------------------------------
+// C16 (zero-annotation safety sweep): for ALL arguments (no precondition), no index, slice, nil-dereference,
+// division or conversion in the body of these functions can panic. Loop counters that start at a constant and are
+// only incremented get their lower bound as an automatic invariant (`opt auto-counters`); nothing else is assumed.
+// Calls are replaced by contracts, inlined, or havocked: a panic inside a callee without a contract is not covered.
+//@ func UTF16ToString
+//@   arith int
+//@   nooverflow off
+//@   safety
+//@   opt auto-counters 1
+//@   prop C16
+
+//@ func UTF16ToStringWithValidation
+//@   arith int
+//@   nooverflow off
+//@   safety
+//@   opt auto-counters 1
+//@   prop C16
+
+//@ func EncodeStringAsShortestDataURL
+//@   arith int
+//@   nooverflow off
+//@   safety
+//@   opt auto-counters 1
+//@   prop C16
+
+//@ func FileURLFromFilePath
+//@   arith int
+//@   nooverflow off
+//@   safety
+//@   opt auto-counters 1
+//@   prop C16
+
+//@ func StringArrayToQuotedCommaSeparatedString
+//@   arith int
+//@   nooverflow off
+//@   safety
+//@   opt auto-counters 1
+//@   prop C16
+
